@@ -37,6 +37,7 @@ type jsAnalysis struct {
 	Free       []string
 	TopLexical []string
 	TopVar     []string
+	DefaultLocal string // local name of `export default function NAME(){}` / class NAME (may be dropped when unused)
 	Props      []string
 	Labels     []string
 	Imexp      []string
@@ -75,7 +76,7 @@ func jsAnalyze(src string) (*jsAnalysis, error) {
 			continue
 		}
 		a := &jsAnalysis{Kind: kind, Free: strList(rep["free"]), TopLexical: strList(rep["topLexical"]), TopVar: strList(rep["topVar"]), Props: strList(rep["props"]),
-			Labels: strList(rep["labels"]), Imexp: strList(rep["imexp"]), Idents: strList(rep["idents"]), WithIdents: strList(rep["withIdents"])}
+			DefaultLocal: fmt.Sprint(rep["defaultLocal"]), Labels: strList(rep["labels"]), Imexp: strList(rep["imexp"]), Idents: strList(rep["idents"]), WithIdents: strList(rep["withIdents"])}
 		a.Imports, _ = rep["imports"].(map[string]interface{})
 		if f, ok := rep["scopes"].(float64); ok {
 			a.Scopes = int(f)
